@@ -30,7 +30,7 @@ func runC08(r *Run, verifDir string) {
 	c.k6Releasable()
 	r.Rule("C08.K10", "the read and write loops tear the connection down on every stream-error exit", 2)
 	c.kLoopErrorExits("C08.K10")
-	c08K7AcceptLoop(r)
+	c08K7AcceptLoop(r, "C08.K7")
 	c08K8NilItems(r)
 	c08K9RequestsOnly(r)
 	c08K3RecoveredError(r, "C08.K3")
@@ -378,6 +378,9 @@ func runC16(r *Run, verifDir string) {
 	c16H3(r)
 	c16H4(r)
 	c16H5(r)
+	c08K7AcceptLoop(r, "C16.H6")
+	r.Rule("C16.H7", "terminate closes the stream on every path (early exits only through a sound idempotence test): a connection whose context was cancelled by the grace period is still closed", 1)
+	terminateClosesStream(r, "C16.H7", "kmipserver")
 }
 
 func c16H1(r *Run) {
@@ -919,12 +922,12 @@ func c16H5(r *Run) {
 
 // c08K7AcceptLoop: the accept loop hands each accepted connection straight to its own goroutine; it performs no
 // per-connection work (handshake, read, hook) that a silent or slow client could use to stall all other clients.
-func c08K7AcceptLoop(r *Run) {
+func c08K7AcceptLoop(r *Run, rule string) {
 	p := r.P
-	r.Rule("C08.K7", "the accept loop only accepts, counts and spawns: the accepted connection flows nowhere but into `go handleConn`", 1)
+	r.Rule(rule, "the accept loop only accepts, counts and spawns: the accepted connection flows nowhere but into `go handleConn`", 1)
 	sv := p.Func("kmipserver", "Server", "Serve")
 	if sv == nil {
-		r.Unk("C08.K7", "kmipserver.Server.Serve/accept-loop", token.NoPos, "anchor missing")
+		r.Unk(rule, "kmipserver.Server.Serve/accept-loop", token.NoPos, "anchor missing")
 		return
 	}
 	var accept *ssa.Call
@@ -934,7 +937,7 @@ func c08K7AcceptLoop(r *Run) {
 		}
 	})
 	if accept == nil {
-		r.Unk("C08.K7", "kmipserver.Server.Serve/accept-loop", sv.Pos(), "Accept call not found")
+		r.Unk(rule, "kmipserver.Server.Serve/accept-loop", sv.Pos(), "Accept call not found")
 		return
 	}
 	// values denoting the accepted connection
@@ -999,6 +1002,7 @@ func c08K7AcceptLoop(r *Run) {
 	bad := token.NoPos
 	what := ""
 	spawned := false
+	shared := false
 	allInstrs(sv, func(in ssa.Instruction) {
 		switch x := in.(type) {
 		case *ssa.Go:
@@ -1011,6 +1015,13 @@ func c08K7AcceptLoop(r *Run) {
 				for _, b := range mc.Bindings {
 					if isConn[b] && thinWrapper(mc.Fn.(*ssa.Function)) != nil {
 						spawned = true
+					}
+					// a captured variable must be the iteration's own: a cell allocated outside the accept loop and
+					// assigned in it is shared by every connection goroutine (they read it when they get scheduled)
+					if al, isCell := b.(*ssa.Alloc); isCell && isConn[b] && !blockInCycle(al.Block()) {
+						bad = x.Pos()
+						what = "go"
+						shared = true
 					}
 				}
 			}
@@ -1052,12 +1063,14 @@ func c08K7AcceptLoop(r *Run) {
 		}
 	})
 	switch {
+	case shared:
+		r.Bad(rule, "kmipserver.Server.Serve/accept-loop", bad, "the connection goroutine captures a variable that is declared outside the accept loop and assigned in every iteration: goroutines started for connections accepted back to back read the same (latest) connection, one connection is served twice (its hooks run twice) and another is never served nor closed")
 	case bad.IsValid():
-		r.Bad("C08.K7", "kmipserver.Server.Serve/accept-loop", bad, "the accept loop itself calls %s on the accepted connection before handing it to a goroutine: a client that stalls there (e.g. never sends its TLS ClientHello) blocks Accept for every other client", what)
+		r.Bad(rule, "kmipserver.Server.Serve/accept-loop", bad, "the accept loop itself calls %s on the accepted connection before handing it to a goroutine: a client that stalls there (e.g. never sends its TLS ClientHello) blocks Accept for every other client", what)
 	case !spawned:
-		r.Bad("C08.K7", "kmipserver.Server.Serve/accept-loop", sv.Pos(), "the accepted connection is not handed to its own goroutine")
+		r.Bad(rule, "kmipserver.Server.Serve/accept-loop", sv.Pos(), "the accepted connection is not handed to its own goroutine")
 	default:
-		r.OK("C08.K7", "kmipserver.Server.Serve/accept-loop", accept.Pos(), "the accepted connection is used only as the argument of `go handleConn`")
+		r.OK(rule, "kmipserver.Server.Serve/accept-loop", accept.Pos(), "the accepted connection is used only as the argument of `go handleConn`")
 	}
 }
 
@@ -1472,6 +1485,33 @@ func c08K5Sentinels(r *Run) {
 		if eofTest == nil {
 			encFirst = true // no EOF classification at all
 		}
+		// the connection loop itself must not take a decode error of the codec for a peer close: an errors.Is test
+		// against a sentinel of the module that is not on the not-an-encoding-error side of IsErrEncoding
+		allInstrs(hc, func(in ssa.Instruction) {
+			c, ok := in.(*ssa.Call)
+			if !ok || !callID(&c.Call).is("errors", "", "Is") || len(c.Call.Args) != 2 {
+				return
+			}
+			u, ok := c.Call.Args[1].(*ssa.UnOp)
+			if !ok {
+				return
+			}
+			g, ok := u.X.(*ssa.Global)
+			if !ok || g.Pkg == nil || !strings.HasPrefix(g.Pkg.Pkg.Path(), modPath) {
+				return
+			}
+			after := false
+			if encTest != nil {
+				for _, dc := range dominatingConds(c.Block()) {
+					if dc.cond == ssa.Value(encTest) && !dc.outcome {
+						after = true
+					}
+				}
+			}
+			if !after {
+				r.Bad("C08.K5", "kmipserver.Server.handleConn/decode-error-as-close", c.Pos(), "handleConn tests the receive error against %s.%s, a decode error of the codec, before classifying encoding errors: a correctly framed request that ends before a mandatory element is taken for a client that went away and dropped without the single invalid-message response", relPkg(g.Pkg.Pkg.Path()), g.Name())
+			}
+		})
 	}
 	bad := token.NoPos
 	n := 0
@@ -1578,4 +1618,25 @@ func alwaysWaits(fn *ssa.Function, depth int) (token.Pos, bool) {
 		}
 	}
 	return token.NoPos, true
+}
+
+// blockInCycle: b can reach itself (it is part of a loop).
+func blockInCycle(b *ssa.BasicBlock) bool {
+	seen := map[*ssa.BasicBlock]bool{}
+	var walk func(x *ssa.BasicBlock) bool
+	walk = func(x *ssa.BasicBlock) bool {
+		for _, s := range x.Succs {
+			if s == b {
+				return true
+			}
+			if !seen[s] {
+				seen[s] = true
+				if walk(s) {
+					return true
+				}
+			}
+		}
+		return false
+	}
+	return walk(b)
 }
